@@ -82,6 +82,7 @@ func (p *bboltStore) Create(swap *SwapStateMachine) error {
 		return fmt.Errorf("bucket nil")
 	}
 
+	swap.Data.syncLastErr()
 	jData, err := json.Marshal(swap)
 	if err != nil {
 		return err
@@ -112,6 +113,7 @@ func (p *bboltStore) Update(swap *SwapStateMachine) error {
 	if b == nil {
 		return fmt.Errorf("bucket nil")
 	}
+	swap.Data.syncLastErr()
 	jData, err := json.Marshal(swap)
 	if err != nil {
 		return err
